@@ -354,6 +354,25 @@ def sub_form(form, kind, lay, p):
             raise NotApplicable
         d.pre = [D + '|' + sized_op(s + nxt.size)]
         d.final = final_replace([sized_op(s + nxt.size)], removed=(p + 1,))
+    elif form == 'before_over_two':
+        # an insertion and an overwrite on one instruction: the overwritten range is in skool addresses,
+        # the inserted instruction has already moved the real address
+        if nxt is None or nxt.entry != anc.entry:
+            raise NotApplicable
+        d.pre = [D + '>INC A', D + '|' + sized_op(s + nxt.size)]
+
+        def f(lay):
+            out = []
+            for i in ins:
+                if i.idx == p:
+                    out.append(_new(lay, 'INC A'))
+                    out.append(_clone(i, sized_op(s + nxt.size), lay))
+                elif i.idx != p + 1:
+                    out.append(_clone(i))
+            return out
+        d.final = f
+        d.peek_from = a
+        d.displaces = True
     elif form == 'over_split':
         if s < 2:
             raise NotApplicable
@@ -432,7 +451,7 @@ def sub_form(form, kind, lay, p):
 
 
 SUB_FORMS = ['rep_same', 'rep_same_lc', 'rep_grow', 'rep_shrink', 'label_only', 'comment_only', 'final', 'before1', 'before2',
-             'after1', 'after2', 'rep_after', 'over_same', 'over_two', 'over_split', 'over_swap', 'over_grow', 'remove1',
+             'after1', 'after2', 'rep_after', 'over_same', 'over_two', 'before_over_two', 'over_split', 'over_swap', 'over_grow', 'remove1',
              'remove_range', 'blk_ins', 'blk_else_same', 'blk_else_addr', 'blk_else_grow', 'blk_remove']
 
 
@@ -553,7 +572,7 @@ def effect(d, lay, mode):
 
 
 # --------------------------------------------------------------------------- skool text
-def skool_text(lay, d, p, labels_all, with_directive=True):
+def skool_text(lay, d, p, labels_all, with_directive=True, shift=False):
     ins = lay.ins
     lo, hi = lay.base, lay.end + PAD
     out = ['@start']
@@ -563,7 +582,7 @@ def skool_text(lay, d, p, labels_all, with_directive=True):
                 out.append('')
             out.append('; Entry {}'.format(i.entry))
             if i.entry == 0 and not (with_directive and d is not None and d.drop_org and p == 0):
-                out.append('@org')
+                out.append('@org={}'.format(lay.base + GAP) if shift else '@org')
         line = '{}{:05d} {:<13} ; comment {}'.format('c' if i.first else ' ', i.saddr, i.text, i.idx)
         cont = '                     ; and a second line' if i.idx == 1 else None
         here = with_directive and d is not None and i.idx == p
@@ -738,8 +757,9 @@ def read_peeks(text):
 # --------------------------------------------------------------------------- one case
 class Case:
     """(file, directive, anchor, label option) - everything that does not depend on mode/options."""
-    def __init__(self, base, entries, dname=None, kind=None, p=0, labels_all=False, gap_entry=None):
+    def __init__(self, base, entries, dname=None, kind=None, p=0, labels_all=False, gap_entry=None, shift=False):
         self.base, self.entries, self.dname, self.kind, self.p, self.labels_all, self.gap_entry = base, entries, dname, kind, p, labels_all, gap_entry
+        self.shift = shift      # the whole file is assembled GAP bytes above its skool addresses (@org=base+GAP)
         self.lay = Layout(base, entries, gap_entry)
         if p >= len(self.lay.ins):
             raise NotApplicable
@@ -747,15 +767,15 @@ class Case:
         if dname is not None:
             self.d = sub_form(dname, kind, self.lay, p) if kind else other_form(dname, self.lay, p)
             self.d.anchor = p
-        self.skool = skool_text(self.lay, self.d, p, labels_all)
-        self.baseline = skool_text(self.lay, self.d, p, labels_all, False) if self.d is not None and self.d.passive else None
+        self.skool = skool_text(self.lay, self.d, p, labels_all, shift=shift)
+        self.baseline = skool_text(self.lay, self.d, p, labels_all, False, shift) if self.d is not None and self.d.passive else None
 
     def ident(self):
         return '{}/{}/{}{}@{}{}'.format(self.base, '|'.join(';'.join(e) for e in self.entries), (self.kind + ':') if self.kind else '', self.dname or 'none',
-                                        self.p, '/labels' if self.labels_all else '')
+                                        self.p, ('/labels' if self.labels_all else '') + ('/shift' if self.shift else ''))
 
     def spec(self):
-        return dict(base=self.base, entries=self.entries, directive=self.dname, kind=self.kind, anchor=self.p, labels_all=self.labels_all, gap_entry=self.gap_entry)
+        return dict(base=self.base, entries=self.entries, directive=self.dname, kind=self.kind, anchor=self.p, labels_all=self.labels_all, gap_entry=self.gap_entry, shift=self.shift)
 
     def classify(self, mode, create_labels):
         """Domain of the case in `mode`: returns dict(relocated, in_domain, peek_from, skip_asm, active)."""
@@ -764,7 +784,7 @@ class Case:
         active = d is not None and d.active(mode)
         # real addresses by the documented rules: contiguous from the first ORG; @org re-anchors
         real = {}
-        a = lay.base
+        a = lay.base + (GAP if self.shift else 0)
         moved_any = False
         for i in final:
             if i.saddr is not None and i.first and lay.gap_entry is not None and i.entry == lay.gap_entry and i.idx is not None and lay.ins[i.idx].first:
@@ -777,7 +797,7 @@ class Case:
                 if a != i.saddr:
                     moved_any = True
             a += i.size
-        relocated = moved_any or a != lay.end + (GAP if active and d.reloc is not None else 0)
+        relocated = moved_any or a != lay.end
         if lay.gap_entry is not None and not (d is not None and d.name == 'org_gap'):
             relocated = True
         in_domain = True
@@ -836,6 +856,7 @@ class Runner:
     def __init__(self):
         self.wd = tools.workdir()
         self.bin_cache = {}
+        self.peeked = 0
 
     def bin_image(self, skool_path, key, mode, data):
         k = (key, mode, data)
@@ -887,6 +908,8 @@ class Runner:
             except OSError:
                 return out + [('tool', 'skool2html wrote no page for the probe entry')], cls
             out.extend(self._peeks(case, cls, text, datares, 'html'))
+            if stats is not None:
+                stats.counters['peek_addresses_compared'] += self.peeked
             return out, cls
         args = ['-q', '-w'] + asm_mode_args(mode) + opt_args(opts) + [path]
         r = tools.run_tool('skool2asm', args)
@@ -896,6 +919,8 @@ class Runner:
             return out + [('tool', 'skool2asm {} failed: {} {}'.format(' '.join(args[2:-1]), r.exc, r.err[-200:]))], cls
         # (3) #PEEK
         out.extend(self._peeks(case, cls, r.out, datares, 'asm'))
+        if stats is not None:
+            stats.counters['peek_addresses_compared'] += self.peeked
         # (1) images
         image, gaps, labels, errors, counts = read_asm(r.out)
         image = {a: b for a, b in image.items() if a < PROBE}
@@ -1062,6 +1087,13 @@ def groups(tier, seed):
                     for p in range(n):
                         for la, c in lab_opts:
                             yield ('B', dict(base=base, entries=ent, dname=form, kind=kind, p=p, labels_all=la), MODES, [dict(base='', case='', c=c)], False)
+    # ---- part S: the same forms in a file assembled GAP bytes above its skool addresses (@org=base+GAP): the
+    # real address differs from the skool address wherever a directive is applied
+    for form in SUB_FORMS:
+        for kind in (KINDS if tier == 'thorough' else ('bfix',)):
+            for p in range(3):
+                yield ('S', dict(base=base, entries=DEFAULT_HOST, dname=form, kind=kind, p=p, labels_all=True, shift=True),
+                       MODES if tier == 'thorough' else [(1, 1), (1, 2)], opt0, False)
     # ---- part O: base/case/-c options on substituted text (default host)
     for form in SUB_FORMS:
         for kind in (KINDS if tier == 'thorough' else ('ssub', 'bfix')):
@@ -1086,8 +1118,9 @@ def groups(tier, seed):
                 yield ('H', dict(base=base, entries=ent, dname=form, p=p, gap_entry=1 if form == 'org_gap' else None), [HTML], opt0, True)
 
 
-def _tags(part, case, mode, opts, clause, cls, html):
-    return {'part': part, 'clause': clause, 'form': case.dname or 'none', 'kind': case.kind or '', 'asm': mode[0], 'fix': mode[1],
+def _tags(part, case, mode, opts, clause, cls, html, detail=''):
+    m = re.search(r'failed: (\w+: .{0,60})', detail)
+    return {'error': m.group(1).strip() if clause == 'tool' and m else '','part': part, 'clause': clause, 'form': case.dname or 'none', 'kind': case.kind or '', 'asm': mode[0], 'fix': mode[1],
             'base': opts.get('base', ''), 'case': opts.get('case', ''), 'c': opts.get('c', 0), 'labels_all': int(case.labels_all),
             'relocated': int(cls['relocated']), 'active': int(cls['active']), 'anchor': case.p, 'html': int(html)}
 
@@ -1125,7 +1158,7 @@ def _shard(shard, nshards, tier, seed):
                 for clause, detail in res:
                     cid = '{}/{}/m{}{}/{}{}'.format(part, case.ident(), mode[0], mode[1], ''.join(opt_args(opts)) or 'default', '/html' if html else '')
                     stats.violation(cid + ':' + clause, dict(spec=case.spec(), mode=list(mode), opts=opts, html=html, skool=case.skool), clause + ': ' + detail,
-                                    tags=_tags(part, case, mode, opts, clause, cls, html), order=gi * 1000 + MODES.index(mode) * 20 + oi if mode in MODES else gi * 1000 + oi)
+                                    tags=_tags(part, case, mode, opts, clause, cls, html, detail), order=gi * 1000 + MODES.index(mode) * 20 + oi if mode in MODES else gi * 1000 + oi)
         if gi % 1499 == 0:
             stats.sample({'part': part, 'case': case.ident(), 'modes': [list(m) for m in modes], 'options': len(opts_list), 'skool': case.skool.split('\n')[:14]})
     return stats
@@ -1134,43 +1167,56 @@ def _shard(shard, nshards, tier, seed):
 def run(tier, seed):
     stats = core.run_shards(_shard, tier, seed, prop=PROPERTY)
     base = BASES[seed % len(BASES)]
+    T = tier == 'thorough'
+    rule = (
+        'skool files at base address {base} (VERIF_SEED rotates the base over {bases}); every part is a complete product. '
+        'A (operands): every sequence of {na} instructions over the {nl}-letter alphabet x every split into entries x mode (1,0) x {{-D,-H,none}} x {{-l,-u,none}} x {{-c,none}}{a3}. '
+        'P (other directives): {np} forms (@org bare/=same/=hex/=shifted/after a gap, @equ x4, @label x4, @keep x2, @nowarn x2, @defb/@defs/@defw x5, @bytes, @if x4, @isub+@ofix on one '
+        'instruction) x every anchor x {hp}: mode-independent forms x modes {mp} x all 18 options, mode-dependent forms x all 9 modes x {{no labels, -c, @label on every instruction}}. '
+        'B (@*sub/@*fix): {nf} forms (replace same/longer/shorter, LABEL:/comment/final-comment variants, > x2, + x2, replace+append, | x6, ! x2, +begin/-begin..+else/-begin..-end blocks) x '
+        '{hb} x every anchor x {{no labels, -c, @label on every instruction}}. S: the same forms, {ks}, in a file assembled 16 bytes above its skool addresses (@org=base+16), all labelled. '
+        'O: every form x {ko} x the 8 non-default base/case settings (x -c). H: skool2html #PEEK against plain skool2bin for {hh}. '
+        'evaluations = (file, mode, options) triples; transitions = tool executions; states = distinct skool2bin images; non-trivial = a directive, an address operand or a non-default option present'
+    ).format(
+        base=base, bases=list(BASES), na='1-3' if T else '1-2', nl=len(ALPHABET),
+        a3=' (three instructions: one entry x option deviations d<=1, three entries x {-c, -H -c})' if T else '',
+        np=len(OTHER_FORMS), hp='7 anchor letters x 2 third instructions x 4 splits + 35 shorter hosts' if T else '7 anchor letters x splits {(3),(1,2)} of a three-instruction host',
+        mp='(1,0),(3,3)' if T else '(1,0)', nf=len(SUB_FORMS),
+        hb='6 kinds x 9 modes x every host (4 anchor letters x 2 third instructions x 4 splits + 20 shorter hosts)' if T
+        else '6 kinds x 9 modes on the default host, and @rsub in modes (2,0),(3,1) on the 11 other three-instruction hosts (4 anchor letters x splits (3),(1,2),(2,1)) and 12 shorter hosts',
+        ks='6 kinds x 9 modes' if T else '@bfix in modes (1,1),(1,2)', ko='6 kinds x 9 modes' if T else '@ssub/@bfix in mode (2,2)',
+        hh='every letter, every pair of letters in two entries, every B form x kind x anchor, every P form on 7 hosts' if T
+        else 'every letter, the pairs of the first 12 letters in two entries, every B form x kind x anchor, every P form on 7 hosts')
     meta = dict(
-        rule='skool files at base {} (seed {}): part A = every sequence of {} instruction(s) over the {}-letter operand alphabet x every split into entries '
-             'x mode (1,0) x {{-D,-H,none}} x {{-l,-u,none}} x {{-c,none}}{}; part P = {} non-substitution directive forms (@org, @equ, @label, @keep, @nowarn, '
-             '@defb/@defs/@defw, @bytes, @if, @isub+@ofix) x every anchor x hosts x modes {} x all 18 options; part B = {} @*sub/@*fix forms x {} x every anchor x '
-             '{{no labels, -c, @label on every instruction}}; part O = every form x {} x all base/case options on the default host; part H = skool2html #PEEK '
-             'against plain skool2bin.  evaluations = (file, mode, options) triples; transitions = tool executions; states = distinct skool2bin images; '
-             'non-trivial = a directive present, an address operand present, or a non-default option'.format(
-                 base, seed, '1-3' if tier == 'thorough' else '1-2', len(ALPHABET),
-                 ' (three instructions: one entry or three entries, option deviations d <= 1)' if tier == 'thorough' else '',
-                 len(OTHER_FORMS), 'all 9' if tier == 'thorough' else '(1,0) and (3,3)', len(SUB_FORMS),
-                 'all 6 kinds x all 9 modes x every host' if tier == 'thorough' else 'all 6 kinds x all 9 modes on the default host, and @rsub x modes (2,0),(3,1) on every host',
-                 'all kinds and modes' if tier == 'thorough' else 'kinds ssub,bfix in mode (2,2)'),
+        rule=rule,
         exhaustive=True,
-        bound='files of <= {} instructions in <= {} entries plus one directive; complete products as stated in the rule'.format(3, 3) if tier == 'thorough'
-              else 'files of <= 2 (part A) / 3 (hosts) instructions in <= 2 entries plus one directive; complete products as stated in the rule',
+        bound=('files of <= 3 instructions in <= 3 entries plus one directive form (one anchor); all 9 (asm,fix) mode pairs of both tools; option product / deviations as stated' if T else
+               'files of <= 2 instructions (part A) or 3-instruction hosts in <= 2 entries plus one directive form (one anchor); mode and option products as stated'),
         assumptions=[
-            'the ASM text is assembled by the harness reader through skoolkit.z80.Assembler (tied to the disassembler by C02); sizes are taken to be independent of operand values',
-            'every file has @start and an @org in front of its first entry: skool2asm emits ORG only for @org (asm.rst), without it the ASM text has no address',
+            'the ASM text is assembled by the harness reader through skoolkit.z80.Assembler (tied to the disassembler by C02); instruction sizes are taken to be independent of operand values',
+            'every file has @start and an @org in front of its first entry: skool2asm emits ORG only for @org (asm.rst); without it the ASM text has no address at all',
             '@org is generated only in front of the first instruction of an entry ("the @org directive works only on the first instruction in an entry", asm.rst); '
-            'the first instruction of the file is never removed, because the ORG would go with it',
-            'entries are contiguous unless an @org is present: skool2bin places an entry that has no @org directly after the previous one, like an assembler would',
+            'the first instruction of the file is never removed (the ORG would go with it); an entry never starts with an instruction that has no address',
+            'entries are contiguous unless an @org is present: skool2bin places an entry that has no @org directly after the previous one, as an assembler does with the ASM text',
             '@bytes: the two bytes of the instruction are excluded from the asm/bin comparison (alternative opcodes cannot be written in ASM text; asm.rst) but not from #PEEK',
             '@defb/@defs/@defw do not appear in ASM text: #PEEK is compared with skool2bin --data, the ASM image with skool2bin without --data',
             '@if uses only the {asm} and {fix} fields (the only ones skool2bin defines)',
-            'domain split of DESIGN.md: with a size-changing directive in force image equality is required only if every referenced relocated instruction is labelled '
-            '(@label on every instruction, -c for entry starts, LABEL: in the directive) and #PEEK only below the first address whose contents may differ',
-            'chained @*sub/@*fix directives mix the | marker only as documented (all of a chain or none)',
+            'domain split of DESIGN.md: with a size-changing directive (or a shifting @org) in force, image equality is required only if every referenced relocated instruction is labelled '
+            '(@label on every instruction, -c for entry starts, LABEL: in the directive); #PEEK is then compared only on unmoved instructions that refer to no relocated instruction, below the '
+            'first address whose contents may differ; the other cases are counted as out_of_domain_unlabelled_relocation',
+            'chained @*sub/@*fix directives use the | marker on all directives of a chain or on none, as in the documented examples (a > line may precede)',
+            'operands of generated instructions never name a label textually; labels in the ASM text come from -c, @label, LABEL: and @equ only',
         ],
-        required_guards=['part_A', 'part_P', 'part_B', 'part_O', 'part_H', 'case_a', 'case_b_in_domain', 'out_of_domain_unlabelled_relocation', 'asm_org', 'asm_equ',
-                         'asm_label', 'asm_label_refs', 'asm_gap', 'html_runs'] + ['in_force_' + k for k in KINDS] + ['form_' + f for f in SUB_FORMS + OTHER_FORMS],
-        extra={'out_of_domain_unlabelled_relocation': stats.counters.get('out_of_domain_unlabelled_relocation', 0)},
+        required_guards=['part_A', 'part_P', 'part_B', 'part_S', 'part_O', 'part_H', 'case_a', 'case_b_in_domain', 'out_of_domain_unlabelled_relocation', 'asm_org', 'asm_equ',
+                         'asm_label', 'asm_label_refs', 'asm_gap', 'html_runs', 'peek_addresses_compared'] + ['in_force_' + k for k in KINDS] + ['form_' + f for f in SUB_FORMS + OTHER_FORMS],
+        extra={'out_of_domain_unlabelled_relocation': stats.counters.get('out_of_domain_unlabelled_relocation', 0),
+               'form_not_applicable': stats.counters.get('form_not_applicable', 0)},
     )
     return stats, meta
 
 
 def replay(case):
     spec = case['spec']
-    c = Case(spec['base'], spec['entries'], spec.get('directive'), spec.get('kind'), spec.get('anchor', 0), spec.get('labels_all', False), spec.get('gap_entry'))
+    c = Case(spec['base'], spec['entries'], spec.get('directive'), spec.get('kind'), spec.get('anchor', 0), spec.get('labels_all', False), spec.get('gap_entry'), spec.get('shift', False))
     res, _ = Runner().check(c, tuple(case['mode']), case['opts'], case.get('html', False))
     return ['{}: {}'.format(cl, d) for cl, d in res]
